@@ -42,6 +42,9 @@ def run(ck):
     base_fn = meths.get("lib_get_add_base")
     func_fn = meths.get("lib_get_add_func")
     ck.need(base_fn is not None and func_fn is not None, "libimp.lib_get_add_base / lib_get_add_func vanished")
+    # container aliases (tab = self.lib_imp2ad[libad]) and `T = old + c` are brought to one form first (sa/prenorm)
+    from sa.prenorm import normalise_function
+    base_fn, func_fn = normalise_function(base_fn), normalise_function(func_fn)
     spacing = _aug_const(base_fn, lambda t: t == "self.libbase_ad")
     stride = _aug_const(func_fn, lambda t: t.startswith("self.libbase2lastad["))
     SP = spacing[0][1] if spacing else None
@@ -146,7 +149,7 @@ def run(ck):
 
     # ---------------------------------------------------------------- R5 a new key never receives an address taken from another table
     from sa.astutil import Resolver
-    fn = m.func("libimp.lib_get_add_func")
+    fn = func_fn
     res = Resolver(fn)
     cursor = None
     for n in walk_body(fn):
